@@ -1325,8 +1325,15 @@ class SFTPUnknownPrincipal(SFTPError):
     def encode(self, version: int) -> bytes:
         """Encode an SFTPUnknownPrincipal as bytes in an SSHPacket"""
 
-        return super().encode(version) + \
-            b''.join(String(name) for name in self.unknown_names)
+        data = super().encode(version)
+
+        # The unknown principal error code and the names which follow it
+        # only exist in SFTPv5 and later. Older versions are sent a plain
+        # failure status
+        if version >= 5:
+            data += b''.join(String(name) for name in self.unknown_names)
+
+        return data
 
     def decode(self, packet: SSHPacket) -> None:
         """Decode error-specific data"""
